@@ -33,40 +33,56 @@ func findWriter(ems []*emitting) *ssa.Function {
 	return best
 }
 
-// normCapacity recognises a guard meaning "n + len(d) <= len(code)" (accept=true) or its
-// negation (accept=false), given the expected operand keys.
-func capacityGuard(g absint.GuardInfo, needKey, capKey string) (accept, ok bool) {
-	if g.Cmp == nil {
+// capacityGuard recognises a guard meaning "need <= cap" (accept=true) or its negation
+// (accept=false), however the comparison is arranged (n+len(d) > len(code),
+// len(d) <= len(code)-n, ...): the comparison is brought into the form L <= R or L < R
+// and R-L compared, as a linear form, with cap-need. needKey / capKey are passed as the
+// keys "need" and "cap" would have; the forms themselves are taken from the guard.
+type capSpec struct {
+	o         absint.Ops
+	need, cap *absint.Int
+}
+
+func (cs capSpec) guard(g absint.GuardInfo) (accept, ok bool) {
+	if g.Cmp == nil || cs.need == nil || cs.cap == nil {
 		return false, false
 	}
 	x, _ := g.Cmp.X.(*absint.Int)
 	y, _ := g.Cmp.Y.(*absint.Int)
-	if x == nil || y == nil {
+	if x == nil || y == nil || x.W != y.W || x.W != cs.need.W {
 		return false, false
 	}
-	xk, yk := x.Lin.Key(), y.Lin.Key()
 	op := g.Cmp.Op
 	if !g.Outcome {
 		op = map[string]string{">": "<=", ">=": "<", "<": ">=", "<=": ">", "==": "!=", "!=": "=="}[op]
 	}
+	var l, r *absint.Int
+	strict := false
+	switch op {
+	case "<=":
+		l, r = x, y
+	case "<":
+		l, r, strict = x, y, true
+	case ">=":
+		l, r = y, x
+	case ">":
+		l, r, strict = y, x, true
+	default:
+		return false, false
+	}
+	d := cs.o.Sub(r, l).Lin.Key()
+	slack := cs.o.Sub(cs.cap, cs.need).Lin.Key()
+	over := cs.o.Sub(cs.need, cs.cap).Lin.Key()
 	switch {
-	case xk == needKey && yk == capKey:
-		switch op {
-		case "<=":
-			return true, true
-		case ">":
-			return false, true
-		}
-	case xk == capKey && yk == needKey:
-		switch op {
-		case ">=":
-			return true, true
-		case "<":
-			return false, true
-		}
+	case d == slack && !strict: // need <= cap
+		return true, true
+	case d == over && strict: // cap < need
+		return false, true
 	}
 	return false, false
 }
+
+func capacityGuard(g absint.GuardInfo, cs capSpec) (accept, ok bool) { return cs.guard(g) }
 
 func C19(ctx *Ctx) {
 	R := ctx.R
@@ -136,8 +152,7 @@ func C19(ctx *Ctx) {
 			continue
 		}
 		o := run.IP.Ops
-		needKey := o.Add(n0, dlen).Lin.Key()
-		capKey := code.Len.Lin.Key()
+		cs := capSpec{o: o, need: o.Add(n0, dlen), cap: code.Len}
 		msg := ""
 		if len(copies) != 1 {
 			msg = fmt.Sprintf("%d copies, want 1", len(copies))
@@ -145,7 +160,7 @@ func C19(ctx *Ctx) {
 		for _, c := range copies {
 			ok := false
 			for _, g := range c.GuardL {
-				if acc, is := capacityGuard(g, needKey, capKey); is && acc {
+				if acc, is := capacityGuard(g, cs); is && acc {
 					ok = true
 				}
 			}
@@ -159,7 +174,7 @@ func C19(ctx *Ctx) {
 			}
 			ok := false
 			for _, g := range s.GuardL {
-				if acc, is := capacityGuard(g, needKey, capKey); is && acc {
+				if acc, is := capacityGuard(g, cs); is && acc {
 					ok = true
 				}
 			}
